@@ -134,35 +134,45 @@ Qed.
 
 (* one pass: the Go triangle against the specification list, and the odd
    entries of the specification list against zero *)
-Definition bernoulli_check : bool :=
-  let L := bern_list_f 65 in
+Definition bern_check_on (L : list Q) : bool :=
   forallb (fun n => Qeq_bool (BernoulliNumber n) (nth n L 0%Q)) (seq 0 65) &&
   forallb (fun n => Qeq_bool (nth (2 * n + 1) L 0%Q) 0%Q) (seq 1 31).
 
-Lemma bernoulli_check_true : bernoulli_check = true.
+Lemma bern_check_on_sound : forall L, bern_check_on L = true ->
+  (forall n, (n <= 64)%nat -> Qeq (BernoulliNumber n) (nth n L 0%Q)) /\
+  (forall n, (1 <= n <= 31)%nat -> Qeq (nth (2 * n + 1) L 0%Q) 0%Q).
+Proof.
+  intros L H. unfold bern_check_on in H.
+  apply andb_true_iff in H. destruct H as [H1 H2].
+  rewrite forallb_forall in H1. rewrite forallb_forall in H2.
+  split; intros n Hn.
+  - apply Qeq_bool_iff. apply H1. apply in_seq_0. lia.
+  - apply Qeq_bool_iff. apply H2. apply in_seq. lia.
+Qed.
+
+Definition bern_ref : list Q := bern_list_f 65.
+
+Lemma bernoulli_check_true : bern_check_on bern_ref = true.
 Proof. vm_cast_no_check (eq_refl true). Qed.
+
+Lemma bern_ref_nth : forall n, (n < 65)%nat -> nth n bern_ref 0%Q = bern n.
+Proof.
+  intros n Hn. unfold bern_ref. rewrite bern_list_f_eq.
+  apply bern_list_nth_stable. exact Hn.
+Qed.
+
+Global Opaque bern_ref.
 
 Lemma bernoulli_table_partial : forall n, (n <= 64)%nat -> Qeq (BernoulliNumber n) (bern n).
 Proof.
   intros n Hn.
-  pose proof bernoulli_check_true as H. unfold bernoulli_check in H. cbv zeta in H.
-  apply andb_true_iff in H. destruct H as [H _].
-  rewrite forallb_forall in H.
-  assert (Hin : In n (seq 0 65)) by (apply in_seq_0; lia).
-  specialize (H n Hin).
-  apply Qeq_bool_iff in H.
-  rewrite bern_list_f_eq, bern_list_nth_stable in H by lia. exact H.
+  destruct (bern_check_on_sound bern_ref bernoulli_check_true) as [H _].
+  rewrite <- bern_ref_nth by lia. apply H. exact Hn.
 Qed.
 
 Lemma bernoulli_odd_zero_partial : forall n, (1 <= n <= 31)%nat -> Qeq (BernoulliNumber (2*n+1)) 0.
 Proof.
   intros n Hn.
-  rewrite (bernoulli_table_partial (2 * n + 1)) by lia.
-  pose proof bernoulli_check_true as H. unfold bernoulli_check in H. cbv zeta in H.
-  apply andb_true_iff in H. destruct H as [_ H].
-  rewrite forallb_forall in H.
-  assert (Hin : In n (seq 1 31)) by (apply in_seq; lia).
-  specialize (H n Hin).
-  apply Qeq_bool_iff in H.
-  rewrite bern_list_f_eq, bern_list_nth_stable in H by lia. exact H.
+  destruct (bern_check_on_sound bern_ref bernoulli_check_true) as [H1 H2].
+  rewrite (H1 (2 * n + 1)%nat) by lia. apply H2. exact Hn.
 Qed.
